@@ -1,6 +1,161 @@
-/- C15 — statements are being added as the proofs land (see DESIGN.md §6). -/
+/-
+  C15 — evaluation is total over field values: once routing selects a return statement with
+  a usable weight list, every combination of field values (any Unicode string, any float,
+  None, booleans, ints up to the interpreter's digit limit) yields a group of that
+  statement; the only value-dependent failure of the key is `str()` of an over-long int.
+-/
+import Pyab.Generated.Config
+import Pyab.Spec.Run
+import Pyab.Proofs.RunGenerated
+import Pyab.Proofs.ChoiceTotal
+import Pyab.Proofs.KeyTotal
+import Pyab.Properties.C09
 namespace Pyab.Properties
+open Pyab Pyab.Spec Pyab.Proofs Pyab.Proofs.Run
 
-theorem C15_placeholder : True := trivial
+/-- **Totality of the hashed choice.**  Hypotheses: the generator facts of C09; UTF-8 key
+    encoding; every declared field is passed; routing selects a return statement; the key
+    can be built (`hkey`; see `C15_keyOf_total` for when); the experiment has a splitter; the
+    weights are usable (`accumulate` succeeds, the total is a positive finite float) and
+    there is one weight per group.  Then the call returns a group of the routed statement. -/
+theorem C15_total (cfg : RunCfg) (hc : CanonicalExpr cfg.toGenCfg) (hs : cfg.strReprSalt = true)
+    (hu : cfg.keyUtf8 = true)
+    (e : Experiment) (env : Env) (L : List ILine) (hL : bodyLines cfg.toGenCfg 2 e.cond = .ok L)
+    (hp : ∀ n ∈ e.params cfg.toGenCfg, (env.get n).isSome = true)
+    (gs : List Group) (pop : List PyVal) (ws : List Num)
+    (hroute : specRoute env e.cond = .ok (some gs)) (hret : retVals cfg.toGenCfg gs = .ok (pop, ws))
+    (hlv : e.localVars ≠ [])
+    (key : String) (hkey : keyOf (e.salt.getD "") e.localVars env = .ok key)
+    (cum : List Num) (last : Num) (t : Dbl)
+    (hacc : Choice.accumulate ws = .ok cum) (hlast : cum.getLast? = some last)
+    (htot : Num.add last (.f Dbl.zero) = .ok (.f t))
+    (hpos : Dbl.le t Dbl.zero = false) (hfin : t.isFinite = true)
+    (hlen : pop.length = ws.length) (hne : 0 < pop.length) :
+    ∃ v ∈ pop, runGenerated cfg e env = .ok (.group v) := by
+  obtain ⟨v, hv, hch⟩ := chooseByKey_utf8_ok key pop ws cum last t hacc hlast htot hpos hfin hlen hne
+  refine ⟨v, hv, ?_⟩
+  rw [C09_factorisation cfg hc hs e env L hL, specRun_eq]
+  have h1 : (e.params cfg.toGenCfg).all (fun p => (env.get p).isSome) = true := List.all_eq_true.2 hp
+  have hr : routed cfg.toGenCfg env e.cond = .ok (pop, ws) := by
+    unfold routed; rw [hroute]; exact hret
+  simp only [h1, hr, Bool.not_true, Bool.false_eq_true, if_false, bind, Except.bind]
+  unfold choiceStage
+  cases hl : e.localVars with
+  | nil => exact absurd hl hlv
+  | cons y ys =>
+      rw [hl] at hkey
+      simp [hkey, hu, hch, bind, Except.bind, Functor.map, Except.map]
+
+/-- the example experiment of C09: whatever string the unit id is -/
+example (uid : String) : ∃ v ∈ [PyVal.int 10, PyVal.int 20],
+    runGenerated Generated.runCfg exC09 [("uid", .str uid), ("country", .int 1)] = .ok (.group v) :=
+  C15_total Generated.runCfg C02_generator_canonical rfl rfl exC09 _ _ rfl
+    (by
+      intro n hn
+      have hl : exC09.params Generated.runCfg.toGenCfg = ["uid", "country"] := by decide
+      rw [hl] at hn
+      simp only [List.mem_cons, List.not_mem_nil, or_false] at hn
+      rcases hn with rfl | rfl <;> rfl) [⟨.int 10, .i 1⟩, ⟨.int 20, .i 1⟩] _ [.i 1, .i 1] rfl rfl (by decide)
+    ("s" ++ String.join [uid]) rfl [.i 1, .i 2] (.i 2) (Dbl.ofInt 2) rfl rfl rfl (by decide) (by decide)
+    rfl (by decide)
+
+/-- without splitters the weighted population is handed to `random.choices` -/
+theorem C15_total_random (cfg : RunCfg) (hc : CanonicalExpr cfg.toGenCfg) (hs : cfg.strReprSalt = true)
+    (e : Experiment) (env : Env) (L : List ILine) (hL : bodyLines cfg.toGenCfg 2 e.cond = .ok L)
+    (hp : ∀ n ∈ e.params cfg.toGenCfg, (env.get n).isSome = true)
+    (gs : List Group) (pop : List PyVal) (ws : List Num)
+    (hroute : specRoute env e.cond = .ok (some gs)) (hret : retVals cfg.toGenCfg gs = .ok (pop, ws))
+    (hlv : e.localVars = [])
+    (cum : List Num) (hch : Choice.choiceIdx none pop.length (some ws) none = .ok (.random cum)) :
+    runGenerated cfg e env = .ok (.random pop cum) := by
+  rw [C09_factorisation cfg hc hs e env L hL, specRun_eq]
+  have h1 : (e.params cfg.toGenCfg).all (fun p => (env.get p).isSome) = true := List.all_eq_true.2 hp
+  have hr : routed cfg.toGenCfg env e.cond = .ok (pop, ws) := by
+    unfold routed; rw [hroute]; exact hret
+  simp only [h1, hr, Bool.not_true, Bool.false_eq_true, if_false, bind, Except.bind]
+  unfold choiceStage
+  simp [hlv, hch, bind, Except.bind, pure, Except.pure]
+
+example : runGenerated Generated.runCfg { exC09 with splitters := none } [("country", .int 1)]
+    = .ok (.random [.int 10, .int 20] [.i 1, .i 2]) :=
+  C15_total_random Generated.runCfg C02_generator_canonical rfl { exC09 with splitters := none } _ _ rfl
+    (by decide) [⟨.int 10, .i 1⟩, ⟨.int 20, .i 1⟩] _ _ rfl rfl rfl _ rfl
+
+/-- **The key is total** over None, booleans, floats (inf, nan, -0.0 included), every string
+    and ints up to the digit limit. -/
+theorem C15_keyOf_total (salt : String) (names : List String) (env : Env)
+    (h : ∀ n ∈ names, ∃ v, env.get n = some v ∧
+      (v = .none ∨ (∃ b, v = .bool b) ∨ (∃ d nz, v = .float d nz) ∨ (∃ s, v = .str s) ∨
+       (∃ i, v = .int i ∧ PyVal.natDigits i.natAbs ≤ PyVal.maxStrDigits))) :
+    ∃ key, keyOf salt names env = .ok key := by
+  apply keyOf_ok
+  intro n hn
+  obtain ⟨v, hv, hk⟩ := h n hn
+  refine ⟨v, hv, ?_⟩
+  rcases hk with rfl | ⟨b, rfl⟩ | ⟨d, nz, rfl⟩ | ⟨s, rfl⟩ | ⟨i, rfl, hi⟩
+  · rfl
+  · rfl
+  · rfl
+  · rfl
+  · simp [keyable, hi]
+
+example : ∃ key, keyOf "s" ["a", "b", "c"]
+    [("a", .str "josé ퟿"), ("b", .float .nan false), ("c", .none)] = .ok key :=
+  C15_keyOf_total _ _ _ (by
+    intro n hn
+    simp only [List.mem_cons, List.not_mem_nil, or_false] at hn
+    rcases hn with rfl | rfl | rfl
+    · exact ⟨_, rfl, Or.inr (Or.inr (Or.inr (Or.inl ⟨_, rfl⟩)))⟩
+    · exact ⟨_, rfl, Or.inr (Or.inr (Or.inl ⟨_, _, rfl⟩))⟩
+    · exact ⟨_, rfl, Or.inl rfl⟩)
+
+/-- … and the first splitter bound to an int beyond the digit limit makes `str()` raise
+    ValueError (known finding K3: CPython's int → str conversion limit) -/
+theorem C15_keyOf_int_too_long (salt : String) (pre post : List String) (n : String) (i : Int) (env : Env)
+    (hpre : ∀ m ∈ pre, ∃ v, env.get m = some v ∧ keyable v = true)
+    (hn : env.get n = some (.int i)) (hi : PyVal.natDigits i.natAbs > PyVal.maxStrDigits) :
+    keyOf salt (pre ++ n :: post) env = .error (.valueError "digits") :=
+  keyOf_digits salt pre post n i env hpre hn hi
+
+/-- (a concrete 4301-digit literal is beyond what the kernel evaluates through `toString`;
+    the example keeps the int symbolic) -/
+example (i : Int) (hi : PyVal.natDigits i.natAbs > PyVal.maxStrDigits) :
+    keyOf "s" ["a", "b"] [("a", .str "x"), ("b", .int i)] = .error (.valueError "digits") :=
+  C15_keyOf_int_too_long "s" ["a"] [] "b" i _ (by
+    intro m hm
+    simp only [List.mem_singleton] at hm
+    subst hm
+    exact ⟨_, rfl, rfl⟩) rfl hi
+
+/-- the only errors of the key construction -/
+theorem C15_keyOf_errors (salt : String) (names : List String) (env : Env) (err : Err)
+    (h : keyOf salt names env = .error err) :
+    (err = .nameError ∧ ∃ n ∈ names, env.get n = none) ∨ err = .valueError "digits" :=
+  keyOf_err salt names env err h
+
+example : (Err.nameError = .nameError ∧ ∃ n ∈ ["a"], Env.get [] n = none) ∨ Err.nameError = .valueError "digits" :=
+  C15_keyOf_errors "s" ["a"] [] _ rfl
+
+/-- **UTF-8 never raises an encode error**, whatever the key -/
+theorem C15_utf8_never_encode_error (key : String) (pop : List PyVal) (ws : List Num) :
+    chooseByKey true key pop ws ≠ .error .encodeError := by
+  intro h
+  rcases chooseByKey_err true key pop ws _ h with ⟨h1, _⟩ | h1
+  · cases h1
+  · cases h1
+
+/-- … whereas the ASCII encoding does, on any key with a non-ASCII character -/
+theorem C15_ascii_encode_error (key : String) (pop : List PyVal) (ws : List Num)
+    (h : isAscii key = false) : chooseByKey false key pop ws = .error .encodeError := by
+  unfold chooseByKey
+  simp [h, bind, Except.bind]
+  rfl
+
+example : chooseByKey false "josé" [.int 1] [.i 1] = .error .encodeError :=
+  C15_ascii_encode_error _ _ _ (by decide)
+
+
+/-- **table obligation**: the key is encoded as UTF-8 (every `str` value is encodable) -/
+theorem C15_key_is_utf8 : Generated.runCfg.keyUtf8 = true := by decide
 
 end Pyab.Properties
